@@ -393,7 +393,7 @@ func MulticodeDecode(s []byte) *DenseGraph {
 			currentVertex++
 		} else {
 			edges[(int(s[i]-1)*int(s[i]-2))/2+currentVertex] = 1
-			degrees[s[i]]++
+			degrees[s[i]-1]++
 			degrees[currentVertex]++
 			m++
 		}
